@@ -187,6 +187,31 @@ theorem c12_helper_guards :
     (∀ cap len n, len ≤ cap → cap < 2^64 → (XmlConsts.append_refused cap len n ≠ 0 ↔ cap - len < n)) :=
   ⟨right_trim_bridge, left_trim_bridge, next_split_done_bridge, split_n_bridge, append_refused_bridge⟩
 
+/-- C12 tie of widths and storage (clang AST of the current xml_parser.c, `Gen/XmlConsts.lean`): the model counts
+and measures in unbounded `Nat`; that is the code's behaviour on documents of at most SIZE_MAX/2 bytes because
+ * every integer local of the parser's functions - the same-name nesting counter `depth_count` (which the depth
+   limit does *not* bound: a skipped or body-read subtree is scanned however deep it is), the skip lengths, the body
+   length, the tag lengths - is 64 bits wide, and there is no narrowing cast;
+ * one run of the inner loop of the closing-tag search raises the counter by at most the bytes it has in front of
+   it, so it stays below 2^64;
+and parsing independent documents on several threads is sound because no function-local has static storage (all
+parser state lives on the caller's stack). -/
+theorem c12_widths_and_storage :
+    (∀ x ∈ XmlConsts.intLocals, x.2.2 = 64 ∨ x = ("s_advance_to_closing_tag", "name_end", 8) ∨
+      x = ("aws_xml_node_traverse", "parent_closed", 1)) ∧
+    ("s_advance_to_closing_tag", "depth_count", 64) ∈ XmlConsts.intLocals ∧
+    ("aws_xml_node_traverse", "node_name_len", 64) ∈ XmlConsts.intLocals ∧
+    XmlConsts.narrowCasts = [] ∧ XmlConsts.staticLocals = [] ∧ HALF + 1 < 2 ^ 64 ∧
+    (∀ (doc : Bytes) (openPat : Bytes) (cp closeLen fuel : Nat) (cur : Cur) (dc : Nat) (le : Err),
+      doc.length ≤ HALF → openPat.length ≤ closeLen → 1 ≤ closeLen → cp + closeLen ≤ doc.length →
+      cur.off + cur.len = doc.length → cur.off ≤ cp → cur.len < fuel →
+      ∃ r, closeInner doc openPat cp closeLen fuel cur dc le = .ok r ∧ r.2.1 ≤ dc + cur.len) := by
+  refine ⟨int_locals_wide, counters_and_offsets_wide.1, counters_and_offsets_wide.2.2.2.1, no_narrow_casts, no_static_locals,
+    by decide, ?_⟩
+  intro doc openPat cp closeLen fuel cur dc le hH h1 h2 h3 h4 h5 h6
+  obtain ⟨r, hr, _, hb⟩ := closeInner_ok doc hH openPat cp closeLen h1 h2 h3 fuel cur dc le h4 h5 h6
+  exact ⟨r, hr, hb⟩
+
 /-- verdict of a run, for the concrete examples -/
 def verdict : Except Fault Result → Option (Bool × Nat)
   | .ok r => some (r.ok, r.events.length)
